@@ -8,6 +8,10 @@ use std::{
 
 pub type TranspositionTable = HashMap<u64, TableEntry, BuildNoHashHasher<u64>>;
 
+/// Deepest iteration of the iterative deepening. It bounds the per-ply tables
+/// (killer moves) and, with the game length limit, the per-ply state stack.
+pub const MAX_DEPTH: u8 = 64;
+
 #[derive(Clone, Copy, PartialEq, Eq, Debug)]
 enum NodeType {
     Exact,
@@ -337,7 +341,7 @@ pub fn get_best_move_entry(
         return Some((moves.first().copied(), 0, true));
     }
 
-    let mut killer_moves = [None; 32];
+    let mut killer_moves = [None; MAX_DEPTH as usize];
     let mut best_move = None;
     let mut best_score = Score::MIN + 1;
 
@@ -469,7 +473,7 @@ pub fn get_best_move_until_stop(
         })
         .unwrap_or(1);
 
-    for depth in starting_depth.. {
+    for depth in starting_depth..=MAX_DEPTH {
         let Some((best_move, best_score, is_only_move)) =
             get_best_move_entry(game.clone(), continue_running, depth, table, &mut history)
         else {
@@ -510,5 +514,5 @@ pub fn get_best_move_until_stop(
         }
     }
 
-    unreachable!()
+    found_move
 }
